@@ -545,7 +545,8 @@ class FuncIntervals:
                         self.alias[st.target.elts[1].id] = alias  # type: ignore[attr-defined]
                         out[alias] = ev
                 else:
-                    self._assign(out, st.target, None, self._elem_iv(it, env))
+                    if not self._assign_rows(out, st.target, it, env):
+                        self._assign(out, st.target, None, self._elem_iv(it, env))
             return out
         if node.kind == "with":
             for item in t.cast(ast.With, a).items:
@@ -582,9 +583,45 @@ class FuncIntervals:
                     del out[k]
         return out
 
+    def _literal_rows(self, it: ast.expr) -> t.Optional[t.List[ast.expr]]:
+        """The elements of a tuple / list display, directly or through a local that is assigned once to one."""
+        if isinstance(it, ast.Name) and it.id not in self.func.params:
+            defs = [n for n in ast.walk(self.func.node) if isinstance(n, (ast.Assign, ast.AnnAssign, ast.AugAssign, ast.For, ast.NamedExpr)) and any(isinstance(x, ast.Name) and x.id == it.id and isinstance(x.ctx, ast.Store) for x in ast.walk(n))]
+            muts = [n for n in ast.walk(self.func.node) if isinstance(n, ast.Call) and isinstance(n.func, ast.Attribute) and isinstance(n.func.value, ast.Name) and n.func.value.id == it.id]
+            if len(defs) == 1 and isinstance(defs[0], (ast.Assign, ast.AnnAssign)) and defs[0].value is not None and not muts:
+                it = defs[0].value
+        if isinstance(it, (ast.Tuple, ast.List)) and it.elts and not any(isinstance(x, ast.Starred) for x in it.elts):
+            return list(it.elts)
+        return None
+
+    def _assign_rows(self, env: Env, target: ast.expr, it: ast.expr, env_in: Env) -> bool:
+        """for a, b in ((x1, y1), (x2, y2)): a is one of the x, b one of the y."""
+        rows = self._literal_rows(it)
+        if rows is None:
+            return False
+        if isinstance(target, ast.Name):
+            iv = BOTTOM
+            for x in rows:
+                iv = iv.join(self.eval(x, env_in))
+            self._assign(env, target, None, iv)
+            return True
+        if isinstance(target, (ast.Tuple, ast.List)) and all(isinstance(r, (ast.Tuple, ast.List)) and len(r.elts) == len(target.elts) and not any(isinstance(x, ast.Starred) for x in r.elts) for r in rows):
+            for i, el in enumerate(target.elts):
+                iv = BOTTOM
+                for r in rows:
+                    iv = iv.join(self.eval(t.cast(ast.Tuple, r).elts[i], env_in))
+                self._assign(env, el, None, iv)
+            return True
+        return False
+
     def _elem_iv(self, it: ast.expr, env: Env) -> IV:
         if isinstance(it, ast.Name) and it.id in self.bytes_like:
             return IV(0, 255)
+        if isinstance(it, (ast.Tuple, ast.List)) and it.elts and not any(isinstance(x, ast.Starred) for x in it.elts):
+            iv = BOTTOM  # for x in (a, b, c): x is one of them
+            for x in it.elts:
+                iv = iv.join(self.eval(x, env))
+            return iv
         return IV.top()
 
     # ------------------------------------------------------------- refinement
@@ -721,6 +758,8 @@ class FuncIntervals:
     def _bind_iter(self, env: Env, target: ast.expr, it: ast.expr) -> None:
         """Range of a comprehension / loop variable from what it iterates over."""
         iv = IV.top()
+        if self._literal_rows(it) is not None and self._assign_rows(env, target, it, dict(env)):
+            return
         if isinstance(it, (ast.Tuple, ast.List)) and it.elts and not any(isinstance(x, ast.Starred) for x in it.elts):
             iv = BOTTOM
             for x in it.elts:
